@@ -3,8 +3,8 @@ package engine
 import (
 	"fmt"
 	"go/constant"
-	"sort"
 	"go/types"
+	"sort"
 	"strings"
 
 	"govc/internal/spec"
@@ -367,6 +367,10 @@ func (e *SpecEnv) ident(x *spec.Ident) Val {
 			if e.loop.idxPhi != nil && e.loop.frame != nil {
 				t := e.loop.frame.env[e.loop.idxPhi].Term
 				return Val{T: types.Typ[types.Int], Term: fmt.Sprintf("(+ %s 1)", t)}
+			}
+			if e.loop.rng != nil && e.loop.rng.IsStr && e.loop.rng.PosCell != nil {
+				// range over a string: the byte offset of the next segment
+				return Val{T: types.Typ[types.Int], Term: e.state().cells[e.loop.rng.PosCell]}
 			}
 			return e.fail(x, "$i: not a range-over-slice loop")
 		case "visited":
@@ -1500,7 +1504,6 @@ func (e *SpecEnv) compileLoc(x spec.Expr) (*Loc, types.Type) {
 	_ = vc
 	return nil, nil
 }
-
 
 // callIfacePure applies a pure interface method inside a specification (same symbol as applyIfaceContract uses).
 func (e *SpecEnv) callIfacePure(x *spec.Call, key string, n *types.Named, method string, recv Val, args []Val) Val {
